@@ -137,6 +137,11 @@ def _drive(ws, ncalls, max_retries):
         except Payload:
             out.append(("payload",))
             break
+        except (sx.Control, sx.ConcreteFailure, sx.ReplayMismatch):
+            raise
+        except Exception as e:  # an internal error is an observable outcome too (and never equals the reference run's)
+            out.append(("internal-error:" + type(e).__name__,))
+            break
     return out
 
 
